@@ -1,0 +1,85 @@
+// This Source Code Form is subject to the terms of the Mozilla Public
+// License, v. 2.0. If a copy of the MPL was not distributed with this
+// file, You can obtain one at http://mozilla.org/MPL/2.0/.
+
+//go:build verif
+
+package queue
+
+// Trace hooks for model-based verification (compiled only with -tags verif): the event loop of the queue emits one JSON
+// line per transition it takes (a Put it accepted, an item it handed to a worker, a release it processed), each followed by
+// the length it reports. The loop is a single goroutine, so the order of the lines is the order of the transitions.
+// Nothing is emitted unless the environment variable VERIF_QUEUE_TRACE=<file prefix> is set.
+
+import (
+	"encoding/json"
+	"fmt"
+	"os"
+	"sync"
+	"sync/atomic"
+	"time"
+)
+
+type verifQ struct {
+	start time.Time
+	id    int64
+}
+
+var (
+	verifSink atomic.Pointer[os.File]
+	verifMu   sync.Mutex
+	verifSeq  int64
+	verifQSeq atomic.Int64
+)
+
+func init() {
+	prefix := os.Getenv("VERIF_QUEUE_TRACE")
+	if prefix == "" {
+		return
+	}
+
+	f, err := os.OpenFile(fmt.Sprintf("%s.%d.ndjson", prefix, os.Getpid()), os.O_CREATE|os.O_WRONLY|os.O_APPEND, 0o644)
+	if err != nil {
+		return
+	}
+
+	verifSink.Store(f)
+}
+
+func (queue *Queue[K, V]) verifStart() {
+	queue.verif.id = verifQSeq.Add(1)
+	queue.verif.start = time.Now()
+}
+
+func (queue *Queue[K, V]) verifMicros(t time.Time) int64 {
+	if t.IsZero() {
+		return 0
+	}
+
+	// 1 is added so that an instant equal to the start of the queue is not mistaken for "no time"
+	return min(max(int64(t.Sub(queue.verif.start)/time.Microsecond), 0), 2_000_000_000) + 1
+}
+
+// verifEvent: ev is "put" (at unused), "get" (the item was handed to a worker) or "release" (at = requested release time,
+// zero for a plain release).
+func (queue *Queue[K, V]) verifEvent(ev string, key K, value V, at time.Time) {
+	f := verifSink.Load()
+	if f == nil {
+		return
+	}
+
+	verifMu.Lock()
+	defer verifMu.Unlock()
+
+	verifSeq++
+
+	line, err := json.Marshal(map[string]any{
+		"seq": verifSeq, "q": queue.verif.id, "ev": ev, "k": fmt.Sprint(key), "v": fmt.Sprint(value),
+		"now": queue.verifMicros(time.Now()), "at": queue.verifMicros(at), "n": queue.length.Load(),
+	})
+	if err != nil {
+		return
+	}
+
+	f.Write(append(line, '\n')) //nolint:errcheck
+}
